@@ -52,6 +52,9 @@ pub struct Sched {
     pub drop_unpolled: bool,
     /// task kinds: run on a multi-thread tokio runtime with a releasing thread (stress; expiries are inconclusive)
     pub mt: bool,
+    /// thread kinds, panicking plans: never release the gates of the higher-index siblings of the panicking branch;
+    /// the panic has to reach the caller while they are held
+    pub hold_after_panic: bool,
 }
 
 pub struct RunRec {
@@ -65,6 +68,8 @@ pub struct RunRec {
     pub decisions: usize,
     pub max_held: usize,
     pub quiesced: bool,
+    /// thread kinds with `hold_after_panic`: number of sibling threads still held at a gate when the result arrived
+    pub held_at_result: usize,
 }
 
 pub fn panic_msg(e: Box<dyn std::any::Any + Send>) -> String {
@@ -85,6 +90,11 @@ pub struct GateTracker {
     /// gates of the siblings of a panicking branch in the panicking step: the panic must reach the caller
     /// without any of them being released (async kinds)
     pub optional: HashSet<u16>,
+    /// gates of the higher-index siblings of a panicking branch in the panicking step: in the thread kinds the
+    /// handles are joined in branch order, so the panic must reach the caller without any of them being released
+    pub after_panic: HashSet<u16>,
+    /// (step, branch) of the injected panic when it is certain to happen
+    pub panic_pos: Option<(usize, usize)>,
     /// gate id -> branch, for initial values that are awaited in the caller's block (`srca(ID).await`)
     pub heads: Vec<(u16, usize)>,
     tasks: bool,
@@ -122,11 +132,17 @@ impl GateTracker {
         }
         let handler = exp.hnd.as_ref().map(|h| h.0).filter(|id| gated(*id));
         let mut optional = HashSet::new();
+        let mut after_panic = HashSet::new();
+        let mut panic_pos = None;
         if let (true, Some((pk, pb))) = (exp.panics && !exp.panic_optional, exp.panic_at) {
             if pk != usize::MAX {
+                panic_pos = Some((pk, pb));
                 for (k, b, gs) in &seqs {
                     if *k == pk && *b != pb {
                         optional.extend(gs.iter().copied());
+                    }
+                    if *k == pk && *b > pb {
+                        after_panic.extend(gs.iter().copied());
                     }
                 }
             }
@@ -135,7 +151,11 @@ impl GateTracker {
         for (g, _) in &heads {
             optional.remove(g);
         }
-        GateTracker { seqs, handler, optional, heads, tasks }
+        GateTracker { seqs, handler, optional, after_panic, panic_pos, heads, tasks }
+    }
+    /// all gates of step k, with their branch
+    pub fn gates_of_step(&self, k: usize) -> Vec<(usize, u16)> {
+        self.seqs.iter().filter(|s| s.0 == k).flat_map(|s| s.2.iter().map(move |g| (s.1, *g))).collect()
     }
     pub fn all(&self) -> Vec<u16> {
         let mut v: Vec<u16> = self.seqs.iter().flat_map(|s| s.2.iter().copied()).collect();
@@ -289,7 +309,7 @@ pub fn run_sync(case: &Case, plan: &Plan) -> RunRec {
         Ok(o) => Outcome::Done(o),
         Err(e) => Outcome::Panicked(panic_msg(e)),
     };
-    { let (l, st) = split_log(); RunRec { outcome, log: l, stale: st, notes: vec![], caller_thr, polls: 0, decisions: 0, max_held: 0, quiesced: crate::tok::live() == 0 } }
+    { let (l, st) = split_log(); RunRec { outcome, log: l, stale: st, notes: vec![], caller_thr, polls: 0, decisions: 0, max_held: 0, quiesced: crate::tok::live() == 0, held_at_result: 0 } }
 }
 
 /// step of a probe id (None for ids that do not belong to a step, e.g. handlers)
@@ -327,11 +347,66 @@ pub fn run_threads(case: &Case, exp: &Exp, plan: &Plan, sched: &Sched, step_of: 
     let mut notes = Vec::new();
     let mut decisions = 0;
     let mut max_held = 0;
+    let mut held_at_result = 0;
     let mut result: Option<(u32, Result<Out, String>)> = None;
     let mut caller_thr = u32::MAX;
     let outcome;
     loop {
         let (must, mustnot, k) = tracker.expect(&released);
+        if sched.hold_after_panic && tracker.panic_pos.map(|p| p.0) == Some(k) {
+            // The panicking step. Thread handles are joined in branch order, so the panic has to reach the caller
+            // while the threads of higher-index siblings are still held. Gates of the other branches are released
+            // as they arrive (which gates the panicking branch itself still reaches depends on the evaluation order
+            // inside its chain expression, so none of them is waited for).
+            let step_gates = tracker.gates_of_step(k);
+            let mut deadline = Instant::now() + bound;
+            let mut spins = 0u32;
+            loop {
+                if result.is_none() {
+                    if let Ok(r) = rx.try_recv() {
+                        result = Some(r);
+                    }
+                }
+                if result.is_some() {
+                    break;
+                }
+                let arr = gate::arrived();
+                let mut cand: Vec<u16> = step_gates.iter().map(|x| x.1).filter(|g| arr.contains(g) && !released.contains(g) && !tracker.after_panic.contains(g)).collect();
+                if !cand.is_empty() {
+                    cand = pick(&sched.prio, &cand, 1);
+                    released.insert(cand[0]);
+                    gate::release(cand[0]);
+                    decisions += 1;
+                    max_held = max_held.max(gate::pending().len());
+                    deadline = Instant::now() + bound;
+                    continue;
+                }
+                if Instant::now() >= deadline {
+                    break;
+                }
+                spins += 1;
+                if spins < 100 {
+                    std::thread::yield_now();
+                } else {
+                    std::thread::sleep(Duration::from_micros(50));
+                }
+            }
+            let held = gate::pending();
+            match result.take() {
+                Some((thr, r)) => {
+                    caller_thr = thr;
+                    held_at_result = held.len();
+                    outcome = match r {
+                        Ok(o) => Outcome::Done(o),
+                        Err(m) => Outcome::Panicked(m),
+                    };
+                }
+                None => {
+                    outcome = Outcome::Hung(format!("the panic did not reach the caller within {:?} while only sibling thread(s) of higher branch index are held, at gate(s) {:?} (arrived={:?}): the caller is left blocked", bound, held, gate::arrived()));
+                }
+            }
+            break;
+        }
         if must.is_empty() {
             // nothing left to release: the macro must return
             let got = match result.take() {
@@ -437,7 +512,7 @@ pub fn run_threads(case: &Case, exp: &Exp, plan: &Plan, sched: &Sched, step_of: 
         }
     }
     let (l, st) = split_log();
-    RunRec { outcome, log: l, stale: st, notes, caller_thr, polls: 0, decisions, max_held, quiesced }
+    RunRec { outcome, log: l, stale: st, notes, caller_thr, polls: 0, decisions, max_held, quiesced, held_at_result }
 }
 
 struct CountWaker(AtomicUsize);
@@ -581,7 +656,7 @@ pub fn run_async_plain(case: &Case, exp: &Exp, plan: &Plan, sched: &Sched) -> Ru
     gate::open_all();
     let quiesced = crate::tok::live() == 0;
     let (l, st) = split_log();
-    RunRec { outcome, log: l, stale: st, notes: d.notes, caller_thr, polls, decisions: d.decisions, max_held: d.max_held, quiesced }
+    RunRec { outcome, log: l, stale: st, notes: d.notes, caller_thr, polls, decisions: d.decisions, max_held: d.max_held, quiesced, held_at_result: 0 }
 }
 
 struct TaskDriver<'a, 'b> {
@@ -704,7 +779,7 @@ pub fn run_async_tasks(case: &Case, exp: &Exp, plan: &Plan, sched: &Sched) -> Ru
     drop(rt);
     let quiesced = crate::tok::live() == 0;
     let (l, st) = split_log();
-    RunRec { outcome, log: l, stale: st, notes: d.notes, caller_thr, polls, decisions: d.decisions, max_held: d.max_held, quiesced }
+    RunRec { outcome, log: l, stale: st, notes: d.notes, caller_thr, polls, decisions: d.decisions, max_held: d.max_held, quiesced, held_at_result: 0 }
 }
 
 /// Stress driver for task kinds: real parallelism on a multi-thread tokio runtime. Gates (if any) are released
@@ -761,5 +836,5 @@ pub fn run_async_tasks_mt(case: &Case, exp: &Exp, plan: &Plan, sched: &Sched) ->
     drop(rt);
     let quiesced = quiesce(Duration::from_secs(5), base_threads);
     let (l, st) = split_log();
-    RunRec { outcome, log: l, stale: st, notes: vec![], caller_thr, polls: 0, decisions: 0, max_held: 0, quiesced }
+    RunRec { outcome, log: l, stale: st, notes: vec![], caller_thr, polls: 0, decisions: 0, max_held: 0, quiesced, held_at_result: 0 }
 }
